@@ -23,7 +23,9 @@ CFG = dict(
     reason_text={"1": "implementation output differs from the Gallina model (Model/Meta.v, Base64.v, SrvStream.v)",
                  "2": "implementation output violates the property predicate (Check/C04c.v: spec_codec / spec_stream / accepted tokens / "
                       "spec_same: same keys lower-cased, same values in per-key order, byte-exact, nothing else)",
-                 "3": "header metadata on an envelope after the first one"},
+                 "3": "header metadata on an envelope after the first one",
+                 "4": "unary: response metadata that is on the wire does not reach the caller through the API (grpc.Header / grpc.Trailer "
+                      "call options: Invoke panics or delivers nothing)"},
     rule="codec: seeded metadata sets (0..16 keys over the gRPC key alphabet in any letter case, -bin suffix in 4 case variants, "
          "1..4 values, binary values incl. empty/NUL/0xFF/alphabet chars 62-63/long, keys colliding after lower-casing, 1..3 maps "
          "joined) through ToKeyValue then ToMetadata; base64 decoder on fixed + random malformed strings (CR/LF, padding, std "
